@@ -1,4 +1,4 @@
 SPECIFICATION TraceSpec
-CONSTANT LimitProof = FALSE
+CONSTANT LimitProof = TRUE
 POSTCONDITION TraceAccepted
 CHECK_DEADLOCK FALSE
